@@ -18,7 +18,7 @@
    Main lemmas: contains_iff_bits / contains_iff_div (containment <-> equal leading bits),
    masked_low_bits_zero, masked_contains_same, parse_addr_zone (zone suffix only sets the zone),
    parse_addr_mapped (the text "::ffff:" ++ d parses to the mapped form of dotted quad d). *)
-From Coq Require Import List NArith Bool Lia ZifyN ZifyBool.
+From Coq Require Import List NArith ZArith Bool Lia ZifyN ZifyBool ZifyNat.
 From Verif Require Import Base.Hex.
 Import ListNotations.
 Open Scope N_scope.
@@ -199,6 +199,23 @@ Definition v6_finish (r : list N * option N * bytes) : option N :=
        | None => Some (be_val ip 0)
        end.
 
+(* the loop and what follows it, for a given initial ellipsis state *)
+Definition v6_run (s : bytes) (ell : option N) : option N :=
+  match v6_loop 9 s [] ell with
+  | Some res => v6_finish res
+  | None => None
+  end.
+
+(* the address proper (zone already split off): a leading "::" sets ellipsis = 0 *)
+Definition v6_body (s : bytes) : option N :=
+  match s with
+  | 58 :: 58 :: r => match r with
+                     | [] => Some 0                  (* only ellipsis: IPv6Unspecified *)
+                     | _ => v6_run r (Some 0)
+                     end
+  | _ => v6_run s None
+  end.
+
 Definition parse_ipv6 (inp : bytes) : option addr :=
   (* split off the zone at the first '%' *)
   let sz := match split_first 37 inp with
@@ -208,20 +225,7 @@ Definition parse_ipv6 (inp : bytes) : option addr :=
   match sz with
   | None => None                                (* zone must be a non-empty string *)
   | Some (s, z) =>
-    let body := match s with
-                | 58 :: 58 :: r => match r with
-                                   | [] => Some 0                  (* only ellipsis *)
-                                   | _ => match v6_loop 9 r [] (Some 0) with
-                                          | Some res => v6_finish res
-                                          | None => None
-                                          end
-                                   end
-                | _ => match v6_loop 9 s [] None with
-                       | Some res => v6_finish res
-                       | None => None
-                       end
-                end in
-    match body with
+    match v6_body s with
     | Some n => Some (mkAddr V6 n z)
     | None => None
     end
@@ -338,3 +342,708 @@ Definition split_host_port (hp : bytes) : shp_result :=
       else ShpOk before port
     end
   end.
+
+(* ====================================================================== *)
+(*                                lemmas                                   *)
+(* ====================================================================== *)
+
+Lemma family_eqb_eq a b : family_eqb a b = true <-> a = b.
+Proof. destruct a, b; simpl; split; congruence. Qed.
+
+Lemma mask6_bits n i : n <= 128 ->
+  N.testbit (mask6 n) i = (128 - n <=? i) && (i <? 128).
+Proof.
+  intros Hn. unfold mask6.
+  destruct (N.ltb_spec i (128 - n)) as [Hlt|Hge].
+  - rewrite N.shiftl_spec_low by assumption.
+    replace (128 - n <=? i) with false by (symmetry; apply N.leb_gt; assumption). reflexivity.
+  - rewrite N.shiftl_spec_high' by assumption.
+    replace (128 - n <=? i) with true by (symmetry; apply N.leb_le; assumption).
+    destruct (N.ltb_spec i 128) as [H1|H1].
+    + rewrite N.ones_spec_low by lia. reflexivity.
+    + rewrite N.ones_spec_high by lia. reflexivity.
+Qed.
+
+(* bits of a well-formed IPv4 address above bit 31 are those of the tag *)
+Lemma wf_v4_high_bits a i : wf_addr a -> fam a = V4 -> 32 <= i ->
+  N.testbit (abits a) i = N.testbit 0xffff (i - 32).
+Proof.
+  intros [_ H] Hf Hi. destruct (H Hf) as [Hs _].
+  rewrite <- Hs, N.shiftr_spec by lia. f_equal. lia.
+Qed.
+
+Lemma lxor_bit_eq a b i : N.testbit (N.lxor a b) i = false <-> N.testbit a i = N.testbit b i.
+Proof. rewrite N.lxor_spec. destruct (N.testbit a i), (N.testbit b i); simpl; split; congruence. Qed.
+
+(* IPv6 containment test <-> equal bits in the window *)
+Lemma contains6_bits a p n : n <= 128 ->
+  (N.land (N.lxor a p) (mask6 n) =? 0) = true <->
+  (forall i, 128 - n <= i < 128 -> N.testbit a i = N.testbit p i).
+Proof.
+  intros Hn. rewrite N.eqb_eq. split.
+  - intros H i Hi. apply lxor_bit_eq.
+    assert (E : N.testbit (N.land (N.lxor a p) (mask6 n)) i = false) by (rewrite H; apply N.bits_0).
+    rewrite N.land_spec, mask6_bits in E by assumption.
+    replace (128 - n <=? i) with true in E by (symmetry; apply N.leb_le; lia).
+    replace (i <? 128) with true in E by (symmetry; apply N.ltb_lt; lia).
+    rewrite andb_true_r in E. exact E.
+  - intros H. apply N.bits_inj_0. intros i.
+    rewrite N.land_spec, mask6_bits by assumption.
+    destruct (N.leb_spec (128 - n) i) as [H1|H1]; [|apply andb_false_r].
+    destruct (N.ltb_spec i 128) as [H2|H2]; [|apply andb_false_r].
+    rewrite andb_true_r. apply lxor_bit_eq. apply H. lia.
+Qed.
+
+(* IPv4 containment test as Go writes it (on the low 64 bits, truncated to uint32) *)
+Lemma contains4_bits a p n : n <= 32 ->
+  (N.shiftr (N.lxor (a mod 2 ^ 64) (p mod 2 ^ 64)) (32 - n) mod 2 ^ 32 =? 0) = true <->
+  (forall i, 32 - n <= i < 64 - n -> N.testbit a i = N.testbit p i).
+Proof.
+  intros Hn. rewrite N.eqb_eq. split.
+  - intros H i Hi. apply lxor_bit_eq.
+    assert (E : N.testbit (N.shiftr (N.lxor (a mod 2 ^ 64) (p mod 2 ^ 64)) (32 - n) mod 2 ^ 32) (i - (32 - n)) = false)
+      by (rewrite H; apply N.bits_0).
+    rewrite N.mod_pow2_bits_low in E by lia.
+    rewrite N.shiftr_spec in E by lia.
+    replace (i - (32 - n) + (32 - n)) with i in E by lia.
+    rewrite N.lxor_spec in E. rewrite !N.mod_pow2_bits_low in E by lia.
+    rewrite N.lxor_spec. exact E.
+  - intros H. apply N.bits_inj_0. intros j.
+    destruct (N.lt_ge_cases j 32) as [Hj|Hj].
+    + rewrite N.mod_pow2_bits_low by assumption.
+      rewrite N.shiftr_spec by lia.
+      rewrite N.lxor_spec, !N.mod_pow2_bits_low by lia.
+      rewrite <- N.lxor_spec. apply lxor_bit_eq. apply H. lia.
+    + apply N.mod_pow2_bits_high. assumption.
+Qed.
+
+(* Containment <-> the address has no zone, the same family, and the same leading plen bits.
+   Bits are numbered from the least significant one: the leading n bits of an L-bit address are
+   bits L-n .. L-1. *)
+Theorem contains_iff_bits p a :
+  prefix_valid p = true -> wf_addr a -> wf_addr (paddr p) ->
+  (contains p a = true <->
+   zone a = [] /\ fam a = fam (paddr p) /\
+   forall i, bit_len (fam a) - plen p <= i < bit_len (fam a) ->
+             N.testbit (abits a) i = N.testbit (abits (paddr p)) i).
+Proof.
+  intros Hv Hwa Hwp. unfold contains. rewrite Hv. cbn [negb orb].
+  unfold has_zone. destruct (zone a) as [|z0 zr] eqn:Ez.
+  2:{ split; [discriminate|]. intros [H _]. discriminate. }
+  destruct (family_eqb (fam (paddr p)) (fam a)) eqn:Ef.
+  2:{ cbn [negb]. split; [discriminate|]. intros [_ [H _]].
+      symmetry in H. apply family_eqb_eq in H. congruence. }
+  apply family_eqb_eq in Ef. cbn [negb].
+  unfold prefix_valid in Hv. apply N.leb_le in Hv. rewrite Ef in Hv.
+  destruct (fam a) eqn:Efa; cbn [bit_len] in *.
+  - rewrite contains4_bits by assumption. split.
+    + intros H. repeat split; try congruence. intros i Hi. apply H. lia.
+    + intros [_ [_ H]] i Hi. destruct (N.lt_ge_cases i 32) as [Hlt|Hge].
+      * apply H. lia.
+      * rewrite (wf_v4_high_bits a i), (wf_v4_high_bits (paddr p) i); auto.
+  - rewrite contains6_bits by assumption. split.
+    + intros H. repeat split; try congruence. exact H.
+    + intros [_ [_ H]]. exact H.
+Qed.
+
+(* the same, as an equation between the leading parts seen as numbers *)
+Definition lead (f : family) (n : N) (x : N) : N :=
+  (x mod 2 ^ bit_len f) / 2 ^ (bit_len f - n).
+
+Lemma lead_eq_iff f n x y : n <= bit_len f ->
+  lead f n x = lead f n y <->
+  (forall i, bit_len f - n <= i < bit_len f -> N.testbit x i = N.testbit y i).
+Proof.
+  intros Hn. unfold lead. rewrite <- !N.shiftr_div_pow2. split.
+  - intros H i Hi.
+    assert (E : N.testbit (N.shiftr (x mod 2 ^ bit_len f) (bit_len f - n)) (i - (bit_len f - n)) =
+                N.testbit (N.shiftr (y mod 2 ^ bit_len f) (bit_len f - n)) (i - (bit_len f - n))) by (rewrite H; reflexivity).
+    rewrite !N.shiftr_spec in E by lia.
+    replace (i - (bit_len f - n) + (bit_len f - n)) with i in E by lia.
+    rewrite !N.mod_pow2_bits_low in E by lia. exact E.
+  - intros H. apply N.bits_inj. intros j. rewrite !N.shiftr_spec by lia.
+    destruct (N.lt_ge_cases (j + (bit_len f - n)) (bit_len f)) as [Hlt|Hge].
+    + rewrite !N.mod_pow2_bits_low by assumption. apply H. lia.
+    + rewrite !N.mod_pow2_bits_high by assumption. reflexivity.
+Qed.
+
+Theorem contains_iff_lead p a :
+  prefix_valid p = true -> wf_addr a -> wf_addr (paddr p) ->
+  (contains p a = true <->
+   zone a = [] /\ fam a = fam (paddr p) /\
+   lead (fam a) (plen p) (abits a) = lead (fam a) (plen p) (abits (paddr p))).
+Proof.
+  intros Hv Hwa Hwp. rewrite contains_iff_bits by assumption.
+  split; intros [H1 [H2 H3]]; repeat split; auto.
+  - apply lead_eq_iff; [|exact H3]. unfold prefix_valid in Hv. apply N.leb_le in Hv. rewrite H2. exact Hv.
+  - apply lead_eq_iff; [|exact H3]. unfold prefix_valid in Hv. apply N.leb_le in Hv. rewrite H2. exact Hv.
+Qed.
+
+(* ---------- masking ---------- *)
+
+Lemma masked_bits_in p i : plen p <= bit_len (fam (paddr p)) ->
+  N.testbit (abits (paddr (masked p))) i =
+  N.testbit (abits (paddr p)) i && (bit_len (fam (paddr p)) - plen p <=? i) && (i <? 128).
+Proof.
+  intros Hn. unfold masked, addr_prefix. cbn [paddr abits].
+  rewrite N.land_spec. destruct (fam (paddr p)); cbn [bit_len] in *.
+  - rewrite mask6_bits by lia. replace (128 - (plen p + 96)) with (32 - plen p) by lia.
+    rewrite andb_assoc. reflexivity.
+  - rewrite mask6_bits by lia. rewrite andb_assoc. reflexivity.
+Qed.
+
+Lemma masked_fam p : fam (paddr (masked p)) = fam (paddr p).
+Proof. reflexivity. Qed.
+Lemma masked_plen p : plen (masked p) = plen p.
+Proof. reflexivity. Qed.
+Lemma masked_zone p : zone (paddr (masked p)) = [].
+Proof. reflexivity. Qed.
+Lemma masked_valid p : prefix_valid (masked p) = prefix_valid p.
+Proof. reflexivity. Qed.
+
+(* host bits of a masked prefix are zero *)
+Theorem masked_low_bits_zero p i :
+  prefix_valid p = true -> i < bit_len (fam (paddr p)) - plen p ->
+  N.testbit (abits (paddr (masked p))) i = false.
+Proof.
+  intros Hv Hi. apply N.leb_le in Hv. rewrite masked_bits_in by assumption.
+  replace (bit_len (fam (paddr p)) - plen p <=? i) with false by (symmetry; apply N.leb_gt; assumption).
+  rewrite andb_false_r. reflexivity.
+Qed.
+
+Lemma bound_of_bits x n : (forall i, n <= i -> N.testbit x i = false) -> x < 2 ^ n.
+Proof.
+  intros H. destruct (N.eq_dec x 0) as [->|Hx]; [apply N.neq_0_lt_0, N.pow_nonzero; lia|].
+  apply N.log2_lt_pow2; [lia|].
+  destruct (N.lt_ge_cases (N.log2 x) n) as [Hl|Hl]; [assumption|].
+  specialize (H _ Hl). rewrite N.bit_log2 in H by assumption. discriminate.
+Qed.
+
+Lemma bits_above x n i : x < 2 ^ n -> n <= i -> N.testbit x i = false.
+Proof.
+  intros Hx Hi. destruct (N.eq_dec x 0) as [->|Hx0]; [apply N.bits_0|].
+  apply N.bits_above_log2. apply N.log2_lt_pow2 in Hx; lia.
+Qed.
+
+Lemma masked_wf p : prefix_valid p = true -> wf_addr (paddr p) -> wf_addr (paddr (masked p)).
+Proof.
+  intros Hv [Hb Hf]. apply N.leb_le in Hv. split.
+  - apply bound_of_bits. intros i Hi. rewrite masked_bits_in by assumption.
+    replace (i <? 128) with false by (symmetry; apply N.ltb_ge; assumption). apply andb_false_r.
+  - rewrite masked_fam. intros E. split; [|reflexivity]. destruct (Hf E) as [Hs _].
+    apply N.bits_inj. intros j. rewrite N.shiftr_spec by lia.
+    rewrite masked_bits_in by assumption. rewrite E in *. cbn [bit_len] in *.
+    replace (32 - plen p <=? j + 32) with true by (symmetry; apply N.leb_le; lia).
+    rewrite andb_true_r. rewrite <- Hs, N.shiftr_spec by lia.
+    destruct (N.ltb_spec (j + 32) 128) as [H1|H1]; [apply andb_true_r|].
+    rewrite andb_false_r. symmetry. apply (bits_above _ 128); assumption.
+Qed.
+
+(* masking a prefix does not change what it contains *)
+Theorem contains_masked p a : prefix_valid p = true -> contains (masked p) a = contains p a.
+Proof.
+  intros Hv. unfold contains. rewrite masked_valid, masked_fam, masked_plen.
+  destruct (negb (prefix_valid p) || has_zone a); [reflexivity|].
+  destruct (negb (family_eqb (fam (paddr p)) (fam a))) eqn:Ef; [reflexivity|].
+  apply negb_false_iff, family_eqb_eq in Ef. apply N.leb_le in Hv.
+  apply eq_true_iff_eq. destruct (fam a) eqn:Efa; rewrite Ef in Hv; cbn [bit_len] in Hv.
+  - rewrite !contains4_bits by assumption. split; intros H i Hi.
+    + rewrite H by assumption. rewrite masked_bits_in by (rewrite Ef; assumption). rewrite Ef. cbn [bit_len].
+      replace (32 - plen p <=? i) with true by (symmetry; apply N.leb_le; lia).
+      replace (i <? 128) with true by (symmetry; apply N.ltb_lt; lia).
+      rewrite !andb_true_r. reflexivity.
+    + rewrite H by assumption. rewrite masked_bits_in by (rewrite Ef; assumption). rewrite Ef. cbn [bit_len].
+      replace (32 - plen p <=? i) with true by (symmetry; apply N.leb_le; lia).
+      replace (i <? 128) with true by (symmetry; apply N.ltb_lt; lia).
+      rewrite !andb_true_r. reflexivity.
+  - rewrite !contains6_bits by assumption. split; intros H i Hi.
+    + rewrite H by assumption. rewrite masked_bits_in by (rewrite Ef; assumption). rewrite Ef. cbn [bit_len].
+      replace (128 - plen p <=? i) with true by (symmetry; apply N.leb_le; lia).
+      replace (i <? 128) with true by (symmetry; apply N.ltb_lt; lia).
+      rewrite !andb_true_r. reflexivity.
+    + rewrite H by assumption. rewrite masked_bits_in by (rewrite Ef; assumption). rewrite Ef. cbn [bit_len].
+      replace (128 - plen p <=? i) with true by (symmetry; apply N.leb_le; lia).
+      replace (i <? 128) with true by (symmetry; apply N.ltb_lt; lia).
+      rewrite !andb_true_r. reflexivity.
+Qed.
+
+(* ---------- unmap / zones keep addresses well-formed ---------- *)
+
+Lemma unmap_wf a : wf_addr a -> wf_addr (unmap a).
+Proof.
+  intros [Hb Hf]. unfold unmap. destruct (is4in6 a) eqn:E; [|split; assumption].
+  unfold is4in6 in E. destruct (fam a); [discriminate|]. apply N.eqb_eq in E.
+  split; [exact Hb|]. intros _. split; [exact E|reflexivity].
+Qed.
+
+Lemma with_zone_wf z a : wf_addr a -> wf_addr (with_zone z a).
+Proof.
+  intros H. unfold with_zone. destruct (fam a) eqn:E; [exact H|]. destruct H as [Hb _].
+  split; [exact Hb|]. cbn [fam]. discriminate.
+Qed.
+
+Lemma strip_zone_zone a : wf_addr a -> zone (strip_zone a) = [].
+Proof.
+  intros [_ Hf]. unfold strip_zone, with_zone. destruct (fam a) eqn:E; [apply Hf; reflexivity|reflexivity].
+Qed.
+
+Lemma unmap_abits a : abits (unmap a) = abits a.
+Proof. unfold unmap. destruct (is4in6 a); reflexivity. Qed.
+Lemma with_zone_abits z a : abits (with_zone z a) = abits a.
+Proof. unfold with_zone. destruct (fam a); reflexivity. Qed.
+Lemma with_zone_fam z a : fam (with_zone z a) = fam a.
+Proof. unfold with_zone. destruct (fam a) eqn:E; [assumption|reflexivity]. Qed.
+
+(* an IPv4-mapped IPv6 address and the IPv4 address it embeds are the same after Unmap,
+   whatever zone the mapped one carried *)
+Lemma unmap_mapped n z : N.shiftr n 32 = 0xffff ->
+  unmap (mkAddr V6 n z) = mkAddr V4 n [].
+Proof. intros H. unfold unmap, is4in6. cbn [fam abits]. rewrite H. reflexivity. Qed.
+
+Lemma unmap_v4 a : fam a = V4 -> unmap a = a.
+Proof. intros H. unfold unmap, is4in6. rewrite H. reflexivity. Qed.
+
+(* ---------- the parsers produce well-formed addresses ---------- *)
+
+Ltac Zify.zify_post_hook ::= Z.div_mod_to_equations.
+
+Definition small (l : list N) : Prop := Forall (fun b => b < 256) l.
+
+Lemma be_val_bound l : forall acc, small l -> be_val l acc < (acc + 1) * 256 ^ N.of_nat (length l).
+Proof.
+  induction l as [|b r IH]; intros acc H; cbn [be_val length].
+  - cbn. lia.
+  - inversion H as [|? ? Hb Hr]; subst. specialize (IH (acc * 256 + b) Hr).
+    rewrite Nat2N.inj_succ, N.pow_succ_r'. nia.
+Qed.
+
+Lemma be_val_app l1 : forall l2 acc, be_val (l1 ++ l2) acc = be_val l2 (be_val l1 acc).
+Proof. induction l1 as [|b r IH]; intros; cbn [be_val app]; [reflexivity|apply IH]. Qed.
+
+Lemma be_val_zeros n : forall acc, acc = 0 -> be_val (repeat 0 n) acc = 0.
+Proof. induction n as [|n IH]; intros acc ->; cbn [repeat be_val]; [reflexivity|apply IH; reflexivity]. Qed.
+
+Lemma v4_loop_ok s : forall val dl pos acc f,
+  v4_loop s val dl pos acc = Some f -> val <= 255 -> small acc -> N.of_nat (length acc) = pos -> pos <= 3 ->
+  length f = 4%nat /\ small f.
+Proof.
+  induction s as [|c r IH]; intros val dl pos acc f H Hval Hacc Hlen Hpos; cbn [v4_loop] in H.
+  - destruct (N.ltb_spec pos 3) as [Hlt|Hge]; [discriminate|]. inversion H; subst f. split.
+    + rewrite app_length. cbn [length]. lia.
+    + apply Forall_app. split; [assumption|]. constructor; [lia|constructor].
+  - destruct (is_digit c) eqn:Ed.
+    + destruct ((dl =? 1) && (val =? 0)); [discriminate|].
+      destruct (N.ltb_spec 255 (val * 10 + (c - 48))) as [Hbig|Hok]; [discriminate|].
+      eapply IH; [exact H|exact Hok|exact Hacc|exact Hlen|exact Hpos].
+    + destruct (c =? 46); [|discriminate].
+      destruct ((dl =? 0) || is_nil r); [discriminate|].
+      destruct (N.eqb_spec pos 3) as [->|Hne]; [discriminate|].
+      eapply IH; [exact H| | | | ].
+      * lia.
+      * apply Forall_app. split; [assumption|]. constructor; [lia|constructor].
+      * rewrite app_length. cbn [length]. lia.
+      * lia.
+Qed.
+
+Lemma parse_v4_fields_ok s f : parse_v4_fields s = Some f -> length f = 4%nat /\ small f.
+Proof. intros H. eapply v4_loop_ok; [exact H|lia|constructor|reflexivity|lia]. Qed.
+
+Lemma parse_ipv4_inv s a : parse_ipv4 s = Some a ->
+  exists f, parse_v4_fields s = Some f /\ a = mkAddr V4 (v4tag + be_val f 0) [].
+Proof.
+  unfold parse_ipv4. destruct (parse_v4_fields s) as [f|]; [|discriminate].
+  intros H. exists f. split; [reflexivity|]. congruence.
+Qed.
+
+Lemma parse_ipv4_fam s a : parse_ipv4 s = Some a -> fam a = V4.
+Proof. intros H. apply parse_ipv4_inv in H. destruct H as [f [_ ->]]. reflexivity. Qed.
+
+Lemma parse_ipv4_wf s a : parse_ipv4 s = Some a -> wf_addr a.
+Proof.
+  intros H. apply parse_ipv4_inv in H. destruct H as [f [E ->]].
+  apply parse_v4_fields_ok in E. destruct E as [Hl Hs].
+  pose proof (be_val_bound f 0 Hs) as Hb. rewrite Hl in Hb. change (256 ^ N.of_nat 4) with 4294967296 in Hb.
+  unfold wf_addr. cbn [fam abits zone]. split.
+  - unfold v4tag. change (2 ^ 128) with 340282366920938463463374607431768211456. lia.
+  - intros _. split; [|reflexivity]. rewrite N.shiftr_div_pow2. unfold v4tag.
+    change (2 ^ 32) with 4294967296. lia.
+Qed.
+
+Lemma hex_val_lt c d : hex_val c = Some d -> d < 16.
+Proof.
+  unfold hex_val. intros H.
+  destruct ((48 <=? c) && (c <=? 57)) eqn:E1; [inversion H; lia|].
+  destruct ((97 <=? c) && (c <=? 102)) eqn:E2; [inversion H; lia|].
+  destruct ((65 <=? c) && (c <=? 70)) eqn:E3; [inversion H; lia|discriminate].
+Qed.
+
+Lemma span_hex_mono s : forall acc n v m r, span_hex s acc n = (v, m, r) -> n <= m.
+Proof.
+  induction s as [|c s IH]; intros acc n v m r H; cbn [span_hex] in H.
+  - inversion H; lia.
+  - destruct (hex_val c); [apply IH in H; lia|inversion H; lia].
+Qed.
+
+Lemma span_hex_bound s : forall acc n v m r, span_hex s acc n = (v, m, r) -> v < (acc + 1) * 16 ^ (m - n).
+Proof.
+  induction s as [|c s IH]; intros acc n v m r H; cbn [span_hex] in H.
+  - inversion H; subst. rewrite N.sub_diag. cbn. lia.
+  - destruct (hex_val c) as [d|] eqn:Ed.
+    + pose proof (hex_val_lt _ _ Ed) as Hd. pose proof (span_hex_mono _ _ _ _ _ _ H) as Hm.
+      apply IH in H. replace (m - n) with (N.succ (m - (n + 1))) by lia. rewrite N.pow_succ_r'. nia.
+    + inversion H; subst. rewrite N.sub_diag. cbn. lia.
+Qed.
+
+Definition v6_inv (ip : list N) : Prop :=
+  small ip /\ (exists k, length ip = (2 * k)%nat) /\ (length ip <= 16)%nat.
+
+Lemma v6_inv_group ip v : v6_inv ip -> (length ip < 16)%nat -> v < 65536 ->
+  v6_inv (ip ++ [v / 256; v mod 256]).
+Proof.
+  intros [Hs [[k Hk] Hl]] Hlt Hv. repeat split.
+  - apply Forall_app. split; [assumption|]. constructor; [lia|]. constructor; [lia|constructor].
+  - exists (S k). rewrite app_length. cbn [length]. lia.
+  - rewrite app_length. cbn [length]. lia.
+Qed.
+
+Lemma v6_loop_inv fuel : forall s ip ell ip' ell' r,
+  v6_loop fuel s ip ell = Some (ip', ell', r) -> v6_inv ip -> v6_inv ip'.
+Proof.
+  induction fuel as [|fuel IH]; intros s ip ell ip' ell' r H Hinv.
+  - cbn [v6_loop] in H. destruct (16 <=? N.of_nat (length ip)); [|discriminate]. inversion H; subst; assumption.
+  - cbn [v6_loop] in H.
+    destruct (N.leb_spec 16 (N.of_nat (length ip))) as [Hge|Hlt]; [inversion H; subst; assumption|].
+    destruct (span_hex s 0 0) as [[acc off] rest] eqn:Esp.
+    destruct (N.ltb_spec 4 off) as [H4|H4]; [discriminate|].
+    destruct (N.eqb_spec off 0) as [H0|H0]; [discriminate|].
+    assert (Hacc : acc < 65536).
+    { pose proof (span_hex_bound _ _ _ _ _ _ Esp) as Hb. rewrite N.sub_0_r in Hb.
+      assert (16 ^ off <= 16 ^ 4) by (apply N.pow_le_mono_r; lia).
+      change (16 ^ 4) with 65536 in *. lia. }
+    assert (Hg : v6_inv (ip ++ [acc / 256; acc mod 256])) by (apply v6_inv_group; [assumption|lia|assumption]).
+    destruct rest as [|c r1].
+    + inversion H; subst. assumption.
+    + destruct (N.eqb_spec c 46) as [->|Hc].
+      * destruct (opt_none ell && negb (N.of_nat (length ip) =? 12)); [discriminate|].
+        destruct (N.ltb_spec 16 (N.of_nat (length ip) + 4)) as [Hbig|Hok]; [discriminate|].
+        destruct (parse_v4_fields s) as [f|] eqn:Ef; [|discriminate].
+        inversion H; subst. apply parse_v4_fields_ok in Ef. destruct Ef as [Hl Hs].
+        destruct Hinv as [Hs0 [[k Hk] Hl0]]. repeat split.
+        -- apply Forall_app; split; assumption.
+        -- exists (k + 2)%nat. rewrite app_length. lia.
+        -- rewrite app_length. lia.
+      * assert (E : match c with 46 => true | _ => false end = false).
+        { destruct c as [|p]; [reflexivity|].
+          do 6 (destruct p as [p|p|]; try reflexivity). all: try (exfalso; apply Hc; reflexivity). }
+        clear E.
+        (* the match on the literal 46 takes the default branch *)
+        assert (H' : (if negb (c =? 58) then None
+                      else match r1 with
+                           | [] => None
+                           | c2 :: r2 =>
+                             if c2 =? 58 then
+                               match ell with
+                               | Some _ => None
+                               | None => match r2 with
+                                         | [] => Some (ip ++ [acc / 256; acc mod 256], Some (N.of_nat (length ip) + 2), [])
+                                         | _ => v6_loop fuel r2 (ip ++ [acc / 256; acc mod 256]) (Some (N.of_nat (length ip) + 2))
+                                         end
+                               end
+                             else v6_loop fuel r1 (ip ++ [acc / 256; acc mod 256]) ell
+                           end) = Some (ip', ell', r)).
+        { destruct c as [|p]; [exact H|].
+          do 6 (destruct p as [p|p|]; try exact H). exfalso; apply Hc; reflexivity. }
+        clear H. destruct (negb (c =? 58)); [discriminate|].
+        destruct r1 as [|c2 r2]; [discriminate|].
+        destruct (c2 =? 58).
+        -- destruct ell; [discriminate|]. destruct r2.
+           ++ inversion H'; subst. assumption.
+           ++ eapply IH; [exact H'|exact Hg].
+        -- eapply IH; [exact H'|exact Hg].
+Qed.
+
+Lemma expand_ok ip e : v6_inv ip -> length (expand_ellipsis ip e) = 16%nat /\ small (expand_ellipsis ip e).
+Proof.
+  intros [Hs [_ Hl]]. unfold expand_ellipsis. split.
+  - rewrite !app_length, repeat_length.
+    pose proof (firstn_skipn (N.to_nat e) ip) as E. apply (f_equal (@length N)) in E.
+    rewrite app_length in E. lia.
+  - unfold small in Hs. rewrite <- (firstn_skipn (N.to_nat e) ip) in Hs. apply Forall_app in Hs. destruct Hs as [Hs1 Hs2].
+    apply Forall_app. split; [assumption|].
+    apply Forall_app. split; [|assumption].
+    apply Forall_forall. intros x Hx. apply repeat_spec in Hx. subst. lia.
+Qed.
+
+Lemma be_val_16 l : length l = 16%nat -> small l -> be_val l 0 < 2 ^ 128.
+Proof.
+  intros Hl Hs. pose proof (be_val_bound l 0 Hs) as Hb. rewrite Hl in Hb.
+  change (256 ^ N.of_nat 16) with (2 ^ 128) in Hb. lia.
+Qed.
+
+Lemma v6_finish_bound res n : v6_inv (fst (fst res)) -> v6_finish res = Some n -> n < 2 ^ 128.
+Proof.
+  destruct res as [[ip ell] rest]. cbn [fst]. intros Hinv. unfold v6_finish.
+  destruct (negb (is_nil rest)); [discriminate|].
+  destruct (N.ltb_spec (N.of_nat (length ip)) 16) as [Hlt|Hge].
+  - destruct ell as [e|]; [|discriminate]. intros H. injection H as <-.
+    destruct (expand_ok ip e Hinv) as [Hl Hs]. apply be_val_16; assumption.
+  - destruct ell; [discriminate|]. intros H. injection H as <-.
+    destruct Hinv as [Hs [_ Hl]]. apply be_val_16; [lia|assumption].
+Qed.
+
+Lemma v6_inv_nil : v6_inv [].
+Proof. repeat split; [constructor|exists 0%nat; reflexivity|cbn; lia]. Qed.
+
+Lemma parse_ipv6_unfold inp :
+  parse_ipv6 inp =
+  match (match split_first 37 inp with
+         | Some (s, z) => if is_nil z then None else Some (s, z)
+         | None => Some (inp, [])
+         end) with
+  | None => None
+  | Some (s, z) => match v6_body s with Some n => Some (mkAddr V6 n z) | None => None end
+  end.
+Proof. reflexivity. Qed.
+
+Lemma v6_run_bound r ell n : v6_run r ell = Some n -> n < 2 ^ 128.
+Proof.
+  unfold v6_run. intros Hr. destruct (v6_loop 9 r [] ell) as [[[ip e] rest]|] eqn:El; [|discriminate].
+  eapply v6_finish_bound; [|exact Hr]. cbn [fst]. eapply v6_loop_inv; [exact El|exact v6_inv_nil].
+Qed.
+
+Lemma v6_body_bound s n : v6_body s = Some n -> n < 2 ^ 128.
+Proof.
+  unfold v6_body. intros H.
+  destruct s as [|c1 s1]; [eapply v6_run_bound; exact H|].
+  destruct (N.eqb_spec c1 58) as [->|Hc1].
+  - destruct s1 as [|c2 s2]; [eapply v6_run_bound; exact H|].
+    destruct (N.eqb_spec c2 58) as [->|Hc2].
+    + destruct s2; [injection H as <-; cbn; lia|eapply v6_run_bound; exact H].
+    + destruct c2 as [|p]; [eapply v6_run_bound; exact H|].
+      do 6 (destruct p as [p|p|]; try (eapply v6_run_bound; exact H)). exfalso; apply Hc2; reflexivity.
+  - destruct c1 as [|p]; [eapply v6_run_bound; exact H|].
+    do 6 (destruct p as [p|p|]; try (eapply v6_run_bound; exact H)). exfalso; apply Hc1; reflexivity.
+Qed.
+
+Lemma parse_ipv6_fam s a : parse_ipv6 s = Some a -> fam a = V6.
+Proof.
+  rewrite parse_ipv6_unfold.
+  destruct (match split_first 37 s with Some (s0, z) => if is_nil z then None else Some (s0, z) | None => Some (s, []) end) as [[s0 z]|]; [|discriminate].
+  destruct (v6_body s0); [|discriminate]. intros H. injection H as <-. reflexivity.
+Qed.
+
+Lemma parse_ipv6_wf s a : parse_ipv6 s = Some a -> wf_addr a.
+Proof.
+  rewrite parse_ipv6_unfold.
+  destruct (match split_first 37 s with Some (s0, z) => if is_nil z then None else Some (s0, z) | None => Some (s, []) end) as [[s0 z]|]; [|discriminate].
+  destruct (v6_body s0) as [n|] eqn:E; [|discriminate]. intros H. injection H as <-.
+  split; [cbn [abits]; eapply v6_body_bound; exact E|cbn [fam]; discriminate].
+Qed.
+
+Lemma parse_addr_scan_cases s w a : parse_addr_scan s w = Some a ->
+  (parse_ipv4 w = Some a) \/ (parse_ipv6 w = Some a).
+Proof.
+  induction s as [|c r IH]; cbn [parse_addr_scan]; [discriminate|].
+  destruct (c =? 46); [left; assumption|].
+  destruct (c =? 58); [right; assumption|].
+  destruct (c =? 37); [discriminate|assumption].
+Qed.
+
+Theorem parse_addr_wf s a : parse_addr s = Some a -> wf_addr a.
+Proof.
+  intros H. apply parse_addr_scan_cases in H. destruct H as [H|H];
+  [eapply parse_ipv4_wf|eapply parse_ipv6_wf]; exact H.
+Qed.
+
+(* ---------- ParsePrefix ---------- *)
+
+Lemma parse_prefix_inv s p : parse_prefix s = Some p ->
+  exists l r, split_last 47 s = Some (l, r) /\ parse_addr l = Some (paddr p) /\
+              zone (paddr p) = [] /\ parse_prefix_bits r = Some (plen p) /\ plen p <= bit_len (fam (paddr p)).
+Proof.
+  unfold parse_prefix. destruct (split_last 47 s) as [[l r]|]; [|discriminate].
+  destruct (parse_addr l) as [ip|] eqn:Ea; [|discriminate].
+  destruct (family_eqb (fam ip) V6 && has_zone ip) eqn:Ez; [discriminate|].
+  destruct (parse_prefix_bits r) as [b|] eqn:Eb; [|discriminate].
+  destruct (N.ltb_spec (bit_len (fam ip)) b) as [Hb|Hb]; [discriminate|].
+  intros H. injection H as <-. exists l, r. cbn [paddr plen].
+  split; [reflexivity|]. split; [exact Ea|]. split; [|split; [exact Eb|exact Hb]].
+  pose proof (parse_addr_wf _ _ Ea) as [_ Hw]. unfold has_zone in Ez.
+  destruct (fam ip) eqn:Ef; [apply Hw; reflexivity|].
+  cbn [family_eqb andb] in Ez. destruct (zone ip); [reflexivity|discriminate].
+Qed.
+
+Lemma parse_prefix_valid s p : parse_prefix s = Some p -> prefix_valid p = true /\ wf_addr (paddr p).
+Proof.
+  intros H. apply parse_prefix_inv in H. destruct H as [l [r [_ [Ha [_ [_ Hb]]]]]]. split.
+  - apply N.leb_le. assumption.
+  - eapply parse_addr_wf; exact Ha.
+Qed.
+
+(* ---------- a zone suffix only sets the zone ---------- *)
+
+Lemma split_first_nomem c s : mem c s = false -> split_first c s = None.
+Proof.
+  induction s as [|x r IH]; cbn [mem split_first]; [reflexivity|].
+  intros H. apply orb_false_iff in H. destruct H as [H1 H2]. rewrite H1, (IH H2). reflexivity.
+Qed.
+
+Lemma split_first_app c s t : mem c s = false -> split_first c (s ++ c :: t) = Some (s, t).
+Proof.
+  induction s as [|x r IH]; cbn [mem split_first app].
+  - intros _. rewrite N.eqb_refl. reflexivity.
+  - intros H. apply orb_false_iff in H. destruct H as [H1 H2]. rewrite H1, (IH H2). reflexivity.
+Qed.
+
+Lemma scan_v6 s : forall w a, parse_addr_scan s w = Some a -> fam a = V6 ->
+  parse_ipv6 w = Some a /\ forall t w', parse_addr_scan (s ++ t) w' = parse_ipv6 w'.
+Proof.
+  induction s as [|c r IH]; intros w a H Hf; cbn [parse_addr_scan] in H; [discriminate|].
+  cbn [app parse_addr_scan].
+  destruct (c =? 46). { apply parse_ipv4_fam in H. congruence. }
+  destruct (c =? 58). { split; [assumption|reflexivity]. }
+  destruct (c =? 37); [discriminate|]. apply IH; assumption.
+Qed.
+
+Theorem parse_addr_zone s z a :
+  mem 37 s = false -> z <> [] -> parse_addr s = Some a -> fam a = V6 ->
+  parse_addr (s ++ 37 :: z) = Some (with_zone z a).
+Proof.
+  intros Hm Hz H Hf. unfold parse_addr in *. destruct (scan_v6 _ _ _ H Hf) as [H6 Hscan].
+  rewrite Hscan. rewrite parse_ipv6_unfold in *.
+  rewrite split_first_app by assumption. rewrite split_first_nomem in H6 by assumption.
+  destruct z as [|z0 zr]; [congruence|]. cbn [is_nil].
+  destruct (v6_body s) as [n|]; [|discriminate]. injection H6 as <-. reflexivity.
+Qed.
+
+(* ---------- "::ffff:" ++ dotted quad is the IPv4-mapped form of the dotted quad ---------- *)
+
+Lemma is_digit_hex c : is_digit c = true -> hex_val c = Some (c - 48).
+Proof. unfold is_digit, hex_val. intros ->. reflexivity. Qed.
+
+Lemma v4_loop_chars s : forall val dl pos acc f,
+  v4_loop s val dl pos acc = Some f -> Forall (fun c => is_digit c = true \/ c = 46) s.
+Proof.
+  induction s as [|c r IH]; intros val dl pos acc f H; [constructor|]. cbn [v4_loop] in H.
+  destruct (is_digit c) eqn:Ed.
+  - destruct ((dl =? 1) && (val =? 0)); [discriminate|].
+    destruct (255 <? val * 10 + (c - 48)); [discriminate|].
+    constructor; [left; exact Ed|eapply IH; exact H].
+  - destruct (N.eqb_spec c 46) as [->|]; [|discriminate].
+    destruct ((dl =? 0) || is_nil r); [discriminate|]. destruct (pos =? 3); [discriminate|].
+    constructor; [right; reflexivity|eapply IH; exact H].
+Qed.
+
+(* relation between the value of the current octet and its number of digits *)
+Definition octet_inv (val dl : N) : Prop :=
+  (dl = 0 /\ val = 0) \/ (dl = 1 /\ val <= 9) \/ (dl = 2 /\ 10 <= val <= 99) \/ (dl = 3 /\ 100 <= val <= 255).
+
+Lemma is_digit_range c : is_digit c = true -> 48 <= c <= 57.
+Proof. unfold is_digit. intros H. apply andb_true_iff in H. destruct H as [H1 H2]. apply N.leb_le in H1, H2. lia. Qed.
+
+(* while an octet of a dotted quad is being read (a dot is still to come), the hex scan of
+   parseIPv6 stops at that dot after at most 3 - dl further digits *)
+Lemma v4_run_hex s : forall val dl pos acc f hacc hn,
+  v4_loop s val dl pos acc = Some f -> pos < 3 -> octet_inv val dl ->
+  exists v m r', span_hex s hacc hn = (v, m, 46 :: r') /\ (m - hn) + dl <= 3 /\ hn <= m /\ (dl = 0 -> hn < m).
+Proof.
+  induction s as [|c r IH]; intros val dl pos acc f hacc hn H Hpos Hinv; cbn [v4_loop] in H.
+  - destruct (N.ltb_spec pos 3); [discriminate|lia].
+  - destruct (is_digit c) eqn:Ed.
+    + destruct ((dl =? 1) && (val =? 0)) eqn:Ez; [discriminate|].
+      destruct (N.ltb_spec 255 (val * 10 + (c - 48))) as [Hbig|Hok]; [discriminate|].
+      pose proof (is_digit_range _ Ed) as Hc.
+      assert (Hinv' : octet_inv (val * 10 + (c - 48)) (dl + 1)).
+      { unfold octet_inv in *. destruct Hinv as [[-> ->]|[[-> Hv]|[[-> Hv]|[-> Hv]]]].
+        - right; left. split; lia.
+        - right; right; left. split; [lia|]. destruct (N.eqb_spec val 0) as [->|]; [discriminate|]. lia.
+        - right; right; right. split; lia.
+        - lia. }
+      destruct (IH _ _ _ _ _ (hacc * 16 + (c - 48)) (hn + 1) H Hpos Hinv') as [v [m [r' [Hs [H1 [H2 H3]]]]]].
+      exists v, m, r'. cbn [span_hex]. rewrite (is_digit_hex _ Ed). split; [exact Hs|]. repeat split; lia.
+    + destruct (N.eqb_spec c 46) as [->|]; [|discriminate].
+      destruct (N.eqb_spec dl 0) as [->|Hdl]; [discriminate|]. cbn [orb] in H.
+      exists hacc, hn, r. cbn [span_hex]. change (hex_val 46) with (@None N). split; [reflexivity|].
+      unfold octet_inv in Hinv. repeat split; lia.
+Qed.
+
+Lemma parse_v4_fields_nonempty s f : parse_v4_fields s = Some f -> s <> [].
+Proof. intros H ->. discriminate. Qed.
+
+Lemma mem_digits_dots c s : Forall (fun c => is_digit c = true \/ c = 46) s ->
+  is_digit c = false -> c <> 46 -> mem c s = false.
+Proof.
+  intros H Hd Hc. induction H as [|x r Hx Hr IH]; [reflexivity|]. cbn [mem]. rewrite IH, orb_false_r.
+  apply N.eqb_neq. intros ->. destruct Hx; congruence.
+Qed.
+
+(* one turn of the parseIPv6 loop, for a hex group followed by ":x" (x not a colon) *)
+Lemma v6_step_colon fuel s ip ell v off c2 r2 :
+  span_hex s 0 0 = (v, off, 58 :: c2 :: r2) -> (4 <? off) = false -> (off =? 0) = false ->
+  (16 <=? N.of_nat (length ip)) = false -> (c2 =? 58) = false ->
+  v6_loop (S fuel) s ip ell = v6_loop fuel (c2 :: r2) (ip ++ [v / 256; v mod 256]) ell.
+Proof.
+  intros Hs H4 H0 H16 Hc. cbn [v6_loop]. rewrite H16, Hs, H4, H0. cbv beta iota.
+  change (58 =? 58) with true. cbn [negb]. rewrite Hc. reflexivity.
+Qed.
+
+(* ... and for a hex group that turns out to start the embedded IPv4 tail *)
+Lemma v6_step_v4tail fuel s ip ell v off r' f :
+  span_hex s 0 0 = (v, off, 46 :: r') -> (4 <? off) = false -> (off =? 0) = false ->
+  (16 <=? N.of_nat (length ip)) = false ->
+  (opt_none ell && negb (N.of_nat (length ip) =? 12)) = false ->
+  (16 <? N.of_nat (length ip) + 4) = false ->
+  parse_v4_fields s = Some f ->
+  v6_loop (S fuel) s ip ell = Some (ip ++ f, ell, []).
+Proof.
+  intros Hs H4 H0 H16 He Hroom Hp. cbn [v6_loop]. rewrite H16, Hs, H4, H0. cbv beta iota.
+  rewrite He, Hroom, Hp. reflexivity.
+Qed.
+
+Definition mapped_prefix : bytes := [58; 58; 102; 102; 102; 102; 58].   (* "::ffff:" *)
+
+Theorem parse_addr_mapped d a :
+  parse_addr d = Some a -> fam a = V4 ->
+  parse_addr (mapped_prefix ++ d) = Some (mkAddr V6 (abits a) []).
+Proof.
+  intros H Hf. unfold parse_addr in H. apply parse_addr_scan_cases in H.
+  destruct H as [H|H]; [|apply parse_ipv6_fam in H; congruence].
+  apply parse_ipv4_inv in H. destruct H as [f [Hp ->]]. cbn [abits].
+  pose proof (v4_loop_chars _ _ _ _ _ _ Hp) as Hch.
+  assert (Hne : d <> []) by (eapply parse_v4_fields_nonempty; exact Hp).
+  destruct d as [|c2 r2]; [congruence|].
+  (* dispatch: first special character is ':' *)
+  unfold parse_addr, mapped_prefix. cbn [app parse_addr_scan]. change (58 =? 46) with false. change (58 =? 58) with true.
+  cbn iota. rewrite parse_ipv6_unfold.
+  (* no zone *)
+  assert (Hz : mem 37 (58 :: 58 :: 102 :: 102 :: 102 :: 102 :: 58 :: c2 :: r2) = false).
+  { cbn [mem]. change (58 =? 37) with false. change (102 =? 37) with false. cbn [orb].
+    apply (mem_digits_dots 37 (c2 :: r2) Hch); [reflexivity|discriminate]. }
+  rewrite (split_first_nomem _ _ Hz).
+  (* the body *)
+  assert (Hb : v6_body (58 :: 58 :: 102 :: 102 :: 102 :: 102 :: 58 :: c2 :: r2) = Some (v4tag + be_val f 0)).
+  { cbn [v6_body]. unfold v6_run.
+    assert (Hc2 : (c2 =? 58) = false).
+    { inversion Hch as [|? ? Hx _]; subst. apply N.eqb_neq. intros ->. destruct Hx as [Hx|Hx]; discriminate. }
+    (* first group: ffff *)
+    assert (E1 : v6_loop 9 (102 :: 102 :: 102 :: 102 :: 58 :: c2 :: r2) [] (Some 0) =
+                 v6_loop 8 (c2 :: r2) [255; 255] (Some 0)).
+    { apply (v6_step_colon 8 _ [] (Some 0) 65535 4 c2 r2); try reflexivity. exact Hc2. }
+    rewrite E1.
+    (* second group: the dotted quad *)
+    destruct (v4_run_hex (c2 :: r2) 0 0 0 [] f 0 0 Hp ltac:(lia) ltac:(left; split; reflexivity))
+      as [v [m [r' [Hs [H1 [H2 H3]]]]]].
+    assert (E2 : v6_loop 8 (c2 :: r2) [255; 255] (Some 0) = Some ([255; 255] ++ f, Some 0, [])).
+    { apply (v6_step_v4tail 7 _ _ _ v m r' f); try reflexivity; try assumption.
+      - apply N.ltb_ge; lia.
+      - apply N.eqb_neq. specialize (H3 eq_refl). lia. }
+    rewrite E2. unfold v6_finish. cbn [is_nil negb].
+    destruct (parse_v4_fields_ok _ _ Hp) as [Hl _].
+    replace (N.of_nat (length ([255; 255] ++ f)) <? 16) with true
+      by (symmetry; apply N.ltb_lt; rewrite app_length, Hl; cbn; lia).
+    f_equal. unfold expand_ellipsis. cbn [N.to_nat firstn skipn app].
+    rewrite be_val_app, be_val_zeros by reflexivity.
+    destruct f as [|a0 [|a1 [|a2 [|a3 [|]]]]]; try discriminate.
+    cbn [be_val app]. unfold v4tag. lia. }
+  rewrite Hb. reflexivity.
+Qed.
